@@ -128,6 +128,10 @@ func sortOperations(ops []*operation.AnchoredOperation) {
 			return true
 		}
 
+		if ops[i].TransactionTime > ops[j].TransactionTime {
+			return false
+		}
+
 		return ops[i].TransactionNumber < ops[j].TransactionNumber
 	})
 }
